@@ -4,7 +4,9 @@ package participle
 // strconv.Unquote, both executed from SSA on symbolic literal bytes).
 
 import (
+	"io"
 	"strconv"
+	"strings"
 
 	"github.com/alecthomas/participle/v2/lexer"
 )
@@ -125,4 +127,121 @@ func VH_C18_Canary() {
 	vAssert(err != nil || got != "a", "canary: must fail")
 }
 
-var _ = lexer.EOF
+// ---------- mapper selection ----------
+
+type vgMapped struct {
+	All []string `@( A | B | C | Str )*`
+}
+
+var vhMapSymbols = map[string]lexer.TokenType{"EOF": lexer.EOF, "A": vhTA, "B": vhTB, "C": vhTC, "Str": -7}
+
+type vhMapDef struct{ toks []lexer.Token }
+
+func (d *vhMapDef) Symbols() map[string]lexer.TokenType { return vhMapSymbols }
+func (d *vhMapDef) Lex(filename string, r io.Reader) (lexer.Lexer, error) {
+	return &vhStreamLexer{toks: d.toks}, nil
+}
+
+type vhSeen struct {
+	typ lexer.TokenType
+	off int
+}
+
+// vhMapStream: up to 3 tokens whose type is one of A, B, C, Str or anything
+// else, with one-byte text (a valid quoted text for Str tokens).
+func vhMapStream() []lexer.Token {
+	n := vChoose("ntokens", 4)
+	toks := make([]lexer.Token, 0, n+1)
+	for i := 0; i < n; i++ {
+		ty := lexer.TokenType(vInt("type"))
+		vAssume(ty != lexer.EOF)
+		val := vString("value", 1)
+		vAssume(val[0] < 0x80) // Upper's case mapping is checked on ASCII only
+		if ty == -7 {
+			c := val[0]
+			vAssume(vAnd(vAnd(c != '"', c != '\\'), vAnd(c != '\n', c < 0x80)))
+			val = "\"" + val + "\""
+		}
+		toks = append(toks, lexer.Token{Type: ty, Value: val, Pos: lexer.Position{Filename: "f", Offset: i, Line: 1, Column: i + 1}})
+	}
+	toks = append(toks, lexer.EOFToken(lexer.Position{Filename: "f", Offset: n, Line: 1, Column: n + 1}))
+	return toks
+}
+
+// VH_C18_Select: a custom Map function sees each non-EOF token of its selected
+// types exactly once, in stream order; Upper and Unquote change only the
+// selected types and never the position or type.
+func VH_C18_Select() {
+	toks := vhMapStream()
+	var seenA, seenAll []vhSeen
+	recA := func(t lexer.Token) (lexer.Token, error) {
+		seenA = append(seenA, vhSeen{t.Type, t.Pos.Offset})
+		return t, nil
+	}
+	recAll := func(t lexer.Token) (lexer.Token, error) {
+		if !t.EOF() {
+			seenAll = append(seenAll, vhSeen{t.Type, t.Pos.Offset})
+		}
+		return t, nil
+	}
+	cfg := vChoose("config", 4)
+	opts := []Option{Lexer(&vhMapDef{toks: toks})}
+	switch cfg {
+	case 0:
+		opts = append(opts, Map(recA, "A", "B"))
+	case 1:
+		opts = append(opts, Map(recAll), Map(recA, "A", "B"))
+	case 2:
+		opts = append(opts, Upper("A"), Map(recA, "A", "B"))
+	case 3:
+		opts = append(opts, Unquote("Str"), Map(recAll))
+	}
+	p, err := Build[vgMapped](opts...)
+	vAssert(err == nil, "catalogue grammar must build")
+	got, lerr := p.Lex("f", strings.NewReader(""))
+	vAssert(lerr == nil, "C18: lexing through the mappers failed")
+	vAssert(len(got) == len(toks), "C18: mappers changed the number of tokens")
+	// expected recorder contents
+	var wantA, wantAll []vhSeen
+	for _, t := range toks {
+		if t.EOF() {
+			continue
+		}
+		wantAll = append(wantAll, vhSeen{t.Type, t.Pos.Offset})
+		if t.Type == vhTA || t.Type == vhTB {
+			wantA = append(wantA, vhSeen{t.Type, t.Pos.Offset})
+		}
+	}
+	if cfg != 3 {
+		vAssert(len(seenA) == len(wantA), "C18: Map(f, types...) did not see each selected token exactly once")
+		for i := range wantA {
+			vAssert(seenA[i] == wantA[i], "C18: Map(f, types...) saw tokens out of order or of another type")
+		}
+	}
+	if cfg == 1 || cfg == 3 {
+		vAssert(len(seenAll) == len(wantAll), "C18: Map(f) without types did not see every non-EOF token exactly once")
+		for i := range wantAll {
+			vAssert(seenAll[i] == wantAll[i], "C18: Map(f) saw tokens out of order")
+		}
+	}
+	for i, t := range toks {
+		g := got[i]
+		vAssert(g.Pos == t.Pos && g.Type == t.Type, "C18: a mapper changed a token's position or type")
+		switch {
+		case cfg == 2 && t.Type == vhTA:
+			b := t.Value[0]
+			up := b
+			if b >= 'a' && b <= 'z' {
+				up = b - 32
+			}
+			if b < 0x80 {
+				vAssert(len(g.Value) == 1 && g.Value[0] == up, "C18: Upper did not upper-case a selected token")
+			}
+		case cfg == 3 && t.Type == -7:
+			vAssert(g.Value == t.Value[1:len(t.Value)-1], "C18: Unquote did not unquote a selected token")
+		default:
+			vAssert(g.Value == t.Value, "C18: a token of a type that was not selected was changed")
+		}
+	}
+	vReach("mapped")
+}
